@@ -672,6 +672,20 @@ func (x *Exec) evalSpecCall2(sc *specCtx, e *ast.CallExpr) Value {
 		o.heap = sc.head.heap
 		o.envOver = sc.head.env
 		return x.evalSpec(&o, e.Args[0])
+	case "at":
+		// at(event, e): e in the heap as it was right after the (only) such lock acquisition / channel receive,
+		// i.e. once the writes of other goroutines published by it had become visible
+		need(2)
+		if sc.noGhost {
+			return PoisonV{}
+		}
+		evs := x.definiteEvents(sc, e.Args[0])
+		if len(evs) != 1 || evs[0].Heap == nil {
+			return PoisonV{}
+		}
+		o := *sc
+		o.heap = evs[0].Heap
+		return x.evalSpec(&o, e.Args[1])
 	case "local":
 		// local(x): the function's local variable x, even when a result/parameter of the same name shadows it
 		need(1)
@@ -890,6 +904,40 @@ func (x *Exec) evalSpecCall2(sc *specCtx, e *ast.CallExpr) Value {
 		need(3)
 		x.sym.declareFun("strsub", []Sort{SStr, SInt, SInt}, SStr)
 		return Scalar{mk(SStr, "strsub", argT(0), argT(1), argT(2)), types.Typ[types.String]}
+	case "captured":
+		// captured(f, T): the cell of the unique variable of type T captured by closure f
+		need(2)
+		fv, ok := arg(0).(FuncV)
+		tv, ok2 := arg(1).(TypeV)
+		if !ok || !ok2 || fv.Fn == nil {
+			return PoisonV{}
+		}
+		var found *PtrV
+		for i, free := range fv.Fn.FreeVars {
+			pt, isPtr := free.Type().Underlying().(*types.Pointer)
+			if !isPtr || i >= len(fv.Bind) || !types.Identical(pt.Elem(), tv.T) {
+				continue
+			}
+			if pv, ok := fv.Bind[i].(PtrV); ok {
+				if found != nil {
+					return PoisonV{}
+				}
+				p := pv
+				found = &p
+			}
+		}
+		if found == nil {
+			return PoisonV{}
+		}
+		return *found
+	case "fresh_in_iteration":
+		// the object was allocated after the loop head was reached (one variable per iteration)
+		need(1)
+		if sc.head == nil {
+			panic(engineErr("fresh_in_iteration outside an iteration clause"))
+		}
+		ts := x.flatten(arg(0))
+		return Scalar{Term{fmt.Sprintf("(> %s (+ ALLOC0 %d))", ts[0].S, sc.head.allocN), SBool}, boolT}
 	case "ifacekey":
 		need(1)
 		return Scalar{x.keyTerm(sc.st, arg(0)), types.Typ[types.Int]}
@@ -1057,6 +1105,16 @@ func (x *Exec) defineSpecFun(sf *SpecFunc) {
 
 // matchEvent returns the condition under which event ev is a call of the function denoted by f.
 func (x *Exec) matchEvent(sc *specCtx, f ast.Expr, ev *Event) Term {
+	// a `let` naming an event designator, e.g. let locked = on("lock", tw.mu)
+	if id, ok := f.(*ast.Ident); ok {
+		if le, ok := sc.letExprs[id.Name]; ok {
+			if ce, ok := le.(*ast.CallExpr); ok {
+				if fid, ok := ce.Fun.(*ast.Ident); ok && fid.Name == "on" {
+					f = le
+				}
+			}
+		}
+	}
 	// on("lock", pe.lock): an event of that kind/name on that object (mutex, channel, wait group)
 	if ce, ok := f.(*ast.CallExpr); ok {
 		if id, ok := ce.Fun.(*ast.Ident); ok && id.Name == "on" && len(ce.Args) == 2 {
